@@ -30,6 +30,11 @@ fn gen_case(r: &mut Prng) -> Case {
         case.pre.push(Op::RegPre { name: "pm".into(), h: hp });
     }
     if r.chance(1, 2) {
+        // a built-in function replaced by the application (must stay replaced whatever is evaluated later)
+        let hs = case.add_handler(HandlerSpec::plain(HKind::Func, Ret::Marker));
+        case.pre.push(Op::RegFn { name: (*r.pick(&["sum", "mul", "max"])).into(), h: hs });
+    }
+    if r.chance(1, 2) {
         // the engine has been used before
         case.pre.insert(0, Op::Exec { prog: Prog::one(lit_i(1)), ctx: CtxRef::Fresh(CtxSpec::empty()) });
     }
@@ -64,6 +69,7 @@ fn gen_case(r: &mut Prng) -> Case {
         };
         match r.below(6) {
             0 => stmts.push(call("gm", vec![rf("x"), rf("y")])),
+            3 => stmts.push(call(*r.pick(&["sum", "mul", "max", "min"]), vec![lit_i(5), lit_i(6)])),
             1 => stmts.insert(r.usize(stmts.len() + 1), bin("+", lit_b(true), lit_i(1))), // fails midway
             2 if i > 0 => {
                 // textually close to an earlier program: same statements but the last
@@ -152,6 +158,9 @@ fn gen_case(r: &mut Prng) -> Case {
         bin("+", lit_i(1), bin("*", lit_i(2), lit_i(3))),
         call("min", vec![lit_i(3), lit_i(1)]),
         call("gm", vec![lit_i(1)]),
+        call("sum", vec![lit_i(5), lit_i(6)]),
+        call("max", vec![lit_i(1), lit_i(7)]),
+        call("mul", vec![lit_i(2), lit_i(3)]),
         bin("in", lit_i(2), Expr::List(vec![lit_i(2)])),
         rf("x"),
     ] {
